@@ -192,3 +192,28 @@ CHECKS.update({
                        rc("cpuset", "group", variant="rcasan", quick=30000, thorough=300000)],
                 assumptions=["topology inputs as the producers guarantee them: L2 groups disjoint, sorted by first cpu id, cpu ids >= 0", "exact-set oracle only for well-formed lists with ids <= 2^20 (the parser's documented clamp)"]),
 })
+
+SYNC_ASSUME = E1_ASSUME + ["programs are deadlock-free by construction and respect the documented contracts (single upgrader, unlock only what is held, no recursive locking)"]
+CHECKS.update({
+    "C22": dict(title="RWLock mutual exclusion and progress", level="exploration",
+                technique="PBT over generated multi-thread lock programs under generated dsched schedules; oracle = exclusion monitor inside the critical sections + lock-free-at-end probe + deadlock/livelock detector",
+                text="2-4 threads, each a generated list over lock / try_lock / lock_shared / try_lock_shared / lock-downgrade-unlock_shared, or (upgrade class: one designated upgrader, all other threads readers only) lock_shared-lock_upgrade-unlock / -lock_downgrade; critical sections update a (writers, readers) monitor around preemption points: writers <= 1, writers == 1 => readers == 0; after all threads finished the lock must be acquirable in both modes (a failed try left no trace); a blocked locker that is never released shows as the explorer's deadlock report, spinning forever as a confirmed livelock.",
+                note=SC_NOTE, design_ref="§4 C22/C23", parts=[e1("sync2", "rwlock")], assumptions=SYNC_ASSUME),
+    "C23": dict(title="DistributedRWLock mutual exclusion and progress", level="exploration",
+                technique="PBT over generated reader/writer programs with generated thread-to-slot mappings under dsched schedules; oracle = exclusion monitor + free-at-end probe on every sub-lock + deadlock/livelock detector",
+                text="DistributedRWLockImpl<N> for N in {1,2,4,16}; 2-4 threads over lock / try_lock / lock_shared(slot) / try_lock_shared(slot) with generated slot indices (including indices >= N that wrap); same monitor as C22; at the end try_lock() succeeds and every sub-lock grants shared access (a failed try_lock rolled back completely).",
+                note=SC_NOTE + " The slot index is passed explicitly to the implementation class (the public wrapper derives it from threadId()).", design_ref="§4 C22/C23", parts=[e1("sync2", "drwlock")], assumptions=SYNC_ASSUME),
+    "C24": dict(title="AsyncRequest delivers each update at most once", level="exploration",
+                technique="PBT over generated consumer/producer histories under dsched schedules, built both as C++14 (detail::OpResult) and C++17 (std::optional); oracle = value ledger (unique tags, moved-from detection) + request/emplace/delivery accounting + quiescent round trip",
+                text="1-3 consumers (requestUpdate, getUpdate) and 1-3 producers (tryEmplaceUpdate(unique tag), updateRequested), up to 5 ops each; every engaged getUpdate result carries a live (not moved-from) payload whose tag was successfully emplaced and has not been delivered before; successful emplaces never exceed started requests, deliveries never exceed successful emplaces; at quiescence request -> emplace -> get round-trips.",
+                note=SC_NOTE + " Not a full linearizability check: the ledger conditions are necessary conditions of the sequential spec (each value at most once, only after a request).", design_ref="§4 C24",
+                parts=[e1("sync2", "async"), e1("sync2", "async", variant="dsched17", quick=3000, thorough=150000)], assumptions=E1_ASSUME),
+    "C25": dict(title="ResourcePool bounds and exclusivity", level="exploration",
+                technique="PBT over generated acquire/hold/release programs (destruction, move construction, move-assignment onto a live handle) under dsched schedules; oracle = per-resource holder flag (CAS), held counter, constructor/destructor ledger, deadlock detector",
+                text="Pool sizes 1-4, 2-5 threads; every acquired resource's holder flag is taken by CAS (failure = two handles on one resource); held <= size at all times; after all handles are gone all `size` resources can be acquired again and are distinct; each resource constructed and destroyed exactly once by the end of the pool; an acquirer that is never woken although resources are free shows as a deadlock report. Two-handle operations only when size >= threads+1 (otherwise the program itself could deadlock).",
+                note=SC_NOTE + " 'acquire() blocks only while all resources are held' is checked through its consequence (no deadlock / lost wakeup), not by observing the blocking instant.", design_ref="§4 C25", parts=[e1("sync2", "respool")], assumptions=SYNC_ASSUME),
+    "C45": dict(title="threadId is stable per thread and unique across threads", level="exploration",
+                technique="PBT over thread counts / call counts under dsched schedules interleaving the first calls; oracle = per-thread constancy and pairwise distinctness over all threads of the case (including finished ones)",
+                text="1-8 (thorough 12) threads per wave, 1-2 waves, each thread calls threadId() 1-5 times around preemption points and stays alive until its wave has reported; ids constant per thread, pairwise distinct across all threads of the process seen in the case, main thread included.",
+                note=SC_NOTE, design_ref="§4 C45", parts=[e1("sync2", "tid")], assumptions=E1_ASSUME),
+})
